@@ -235,6 +235,115 @@ func c01Nil(r *Run) {
 			}
 		}
 	}
+	// operator constructors that do not normalise themselves (NewBinaryAdd, NewBinaryPow, …) rely on
+	// NewBinaryExpression: the parser must not call them directly with parse results
+	normalising := map[*types.Func]bool{}
+	for _, name := range roots {
+		if fn, _ := npkg.Types.Scope().Lookup(name).(*types.Func); fn != nil {
+			normalising[fn] = true
+		}
+	}
+	raw := map[*types.Func]bool{}
+	if be, _ := npkg.Types.Scope().Lookup("NewBinaryExpression").(*types.Func); be != nil {
+		ast.Inspect(declOf[be].Body, func(n ast.Node) bool {
+			if c, ok := n.(*ast.CallExpr); ok {
+				if cal, ok := calleeOf(info, c).(*types.Func); ok && cal.Pkg() == npkg.Types && strings.HasPrefix(cal.Name(), "New") && !normalising[cal] && !nonNilRet[cal] {
+					raw[cal] = true
+				}
+			}
+			return true
+		})
+	}
+	r.stat("operator_constructors_relying_on_NewBinaryExpression", len(raw))
+	if ppkg := r.pkg("parser"); ppkg != nil {
+		nDirect := 0
+		for _, fd := range funcDecls(ppkg) {
+			ast.Inspect(fd.Body, func(n ast.Node) bool {
+				c, ok := n.(*ast.CallExpr)
+				if !ok {
+					return true
+				}
+				cal, ok := calleeOf(ppkg.TypesInfo, c).(*types.Func)
+				if !ok {
+					return true
+				}
+				// same object across packages: compare by package path and name
+				for rc := range raw {
+					if cal.Pkg() != nil && cal.Pkg().Path() == rc.Pkg().Path() && cal.Name() == rc.Name() {
+						// an argument is risky when it is a variable that received the node result of a
+						// parse call in this function and is never compared with nil
+						risky := false
+						for _, a := range c.Args {
+							id, ok := ast.Unparen(a).(*ast.Ident)
+							if !ok || !isNamed(ppkg.TypesInfo.TypeOf(a), modPath+"/data", "GetValue") {
+								continue
+							}
+							obj := ppkg.TypesInfo.Uses[id]
+							fromParse, nilTested := false, false
+							ast.Inspect(fd.Body, func(m ast.Node) bool {
+								switch y := m.(type) {
+								case *ast.AssignStmt:
+									if len(y.Rhs) == 1 && len(y.Lhs) == 2 {
+										if pc, ok := ast.Unparen(y.Rhs[0]).(*ast.CallExpr); ok {
+											if pcal, ok := calleeOf(ppkg.TypesInfo, pc).(*types.Func); ok {
+												if sig, ok := pcal.Type().(*types.Signature); ok && sig.Results().Len() == 2 && isNamed(sig.Results().At(1).Type(), modPath+"/data", "Control") {
+													if lid, ok := y.Lhs[0].(*ast.Ident); ok && (ppkg.TypesInfo.Defs[lid] == obj || ppkg.TypesInfo.Uses[lid] == obj) {
+														fromParse = true
+													}
+												}
+											}
+										}
+									}
+								case *ast.BinaryExpr:
+									if exprStr(y.Y) == "nil" {
+										if xid, ok := ast.Unparen(y.X).(*ast.Ident); ok && ppkg.TypesInfo.Uses[xid] == obj {
+											nilTested = true
+										}
+									}
+								}
+								return true
+							})
+							if fromParse && !nilTested {
+								risky = true
+							}
+						}
+						// a function nobody calls cannot feed a nil operand to anything
+						if risky {
+							hasCaller := fd.Name.IsExported()
+							if fobj, ok := ppkg.TypesInfo.Defs[fd.Name].(*types.Func); ok {
+								for _, ofd := range funcDecls(ppkg) {
+									ast.Inspect(ofd.Body, func(m ast.Node) bool {
+										switch y := m.(type) {
+										case *ast.CallExpr:
+											if calleeOf(ppkg.TypesInfo, y) == fobj {
+												hasCaller = true
+											}
+										case *ast.SelectorExpr:
+											if ppkg.TypesInfo.Uses[y.Sel] == fobj {
+												hasCaller = true
+											}
+										}
+										return true
+									})
+								}
+							}
+							if !hasCaller {
+								risky = false
+							}
+						}
+						if risky {
+							nDirect++
+							r.bad(fmt.Sprintf("%s#direct:%s", funcKey(ppkg, fd), cal.Name()), c.Pos(), fmt.Sprintf("the parser builds %s directly from parse results, bypassing the nil-operand replacement in NewBinaryExpression", cal.Name()))
+						}
+					}
+				}
+				return true
+			})
+		}
+		if nDirect == 0 {
+			r.ok("parser#no-direct-operator-constructors", 0, fmt.Sprintf("no parser call site builds one of the %d non-normalising operator nodes directly from a parse result", len(raw)))
+		}
+	}
 	// statement-level nodes whose condition/operand the parser can leave nil (witnessed inputs)
 	stmts := []struct{ ctor, param, witness string }{
 		{"NewIfStatement", "condition", "if () { echo 1; }"},
